@@ -285,6 +285,16 @@ def r_cancel(ctx):
                             bad = '`?` in a body returning Result<_, %s>' % e
             ctx.check(bad is None, rule, key, c.loc(), 'cancellation error propagated unchanged',
                       'the cancellation poll in `%s` is rewrapped (%s): the caller no longer receives Error::BuildCancelled' % (g.path, bad))
+    # who may call the callback: only BuildOption::cancelled turns its answer into Error::BuildCancelled; any other
+    # place that invokes the `cancel` closure learns about the cancellation without reporting it
+    for g in F.lib_fns():
+        if g.path == f.path or g.path.startswith(f.path + '::'):
+            continue
+        for c in g.calls():
+            if c.callee.endswith(('Fn::call', 'FnMut::call_mut', 'FnOnce::call_once')) and c.args:
+                recv = c.arg_term(0)
+                if any(s2[0] == 'field' and s2[2] == 'cancel' for s2 in walk(recv)):
+                    ctx.bad(rule, '%s/direct-poll' % g.path, c.loc(), '`%s` calls the cancellation callback itself instead of going through BuildOption::cancelled: a `true` answer is acted upon (work skipped) without Error::BuildCancelled being returned' % g.path)
     # the build entry polls before doing anything and propagates
     be = C06.build_entry(F)
     if ctx.need(be is not None, rule, 'build entry'):
